@@ -1,0 +1,40 @@
+//go:build verif
+
+package netceptor
+
+import (
+	"reflect"
+	"sync"
+	"time"
+	"unsafe"
+)
+
+// VerifReadDeadline reports the read deadline currently armed on the connection's QUIC stream
+// (zero time = none). ok is false when the stream's layout is not the expected one (verif builds only).
+func (c *Conn) VerifReadDeadline() (deadline time.Time, ok bool) {
+	v := reflect.ValueOf(c.qs)
+	for v.Kind() == reflect.Interface || v.Kind() == reflect.Ptr {
+		if v.IsNil() {
+			return time.Time{}, false
+		}
+		v = v.Elem()
+	}
+	if v.Kind() != reflect.Struct {
+		return time.Time{}, false
+	}
+	rs := v.FieldByName("receiveStream")
+	if !rs.IsValid() || rs.Kind() != reflect.Struct {
+		return time.Time{}, false
+	}
+	f, m := rs.FieldByName("deadline"), rs.FieldByName("mutex")
+	if !f.IsValid() || !f.CanAddr() || f.Type() != reflect.TypeOf(time.Time{}) {
+		return time.Time{}, false
+	}
+	if m.IsValid() && m.CanAddr() && m.Type() == reflect.TypeOf(sync.Mutex{}) {
+		mu := (*sync.Mutex)(unsafe.Pointer(m.UnsafeAddr()))
+		mu.Lock()
+		defer mu.Unlock()
+	}
+
+	return *(*time.Time)(unsafe.Pointer(f.UnsafeAddr())), true
+}
